@@ -27,6 +27,10 @@ CHECKS = {
    text="property-based search: help flag inserted as its own item at every position left of `--` of generated valid/invalid/incomplete lines; outcome must be stdout with the help text of the level entered (computed from that level alone); version flag likewise on valid lines",
    note="trusted: the standalone rendering of a level's help as the reference text; for mutated lines any level on the chain of command names is accepted",
    tech="property-based testing: exhaustive insertion positions per generated line, differential against the help of the level built alone"),
+ "C04": dict(
+   text="property-based search with the widest definition generator and arbitrary byte-string vectors over all modes (parse, help, version, completion revisions 0/1/7/8/9 with/without name, markdown/html/manpage) and run histories; panics are caught in-process, aborts/stack overflow/process exit/hangs are detected by the parent through per-case slot files and a watchdog",
+   note="termination cannot be established by testing: bounded generation + 180 s no-progress watchdog, hangs reported as inconclusive (exit 2). `--bpaf-complete-*` items are excluded (documented process exits)",
+   tech="property-based testing / fuzz-style totality check (catch_unwind + watchdog) with a history-replay purity oracle"),
 }
 
 PENDING_REASON = "check not built yet in this session (designed in DESIGN.md section 4; property-based testing applies to it)"
